@@ -116,7 +116,7 @@ func dagEntries(h *harness) []*entry {
 		"tx-kid-on-root", txSeed([]string{root.Ref().String()}, 1, ph, false, false),
 		"tx-private-on-root", txSeed([]string{root.Ref().String()}, 1, ph, true, true),
 	)
-	add := &entry{name: "dag.State.Add(ParseTransaction)", gen: genJSON(addSeeds, false, atk.jwsWrap),
+	add := &entry{name: "dag.State.Add", gen: genJSON(addSeeds, false, atk.jwsWrap),
 		call: func(in input) error {
 			tx, err := dag.ParseTransaction(in.data)
 			if err != nil {
@@ -158,7 +158,7 @@ func ibltEntry(h *harness) *entry {
 	valid, _ := peer.MarshalBinary()
 	const bb = 44
 	nb := len(valid) / bb
-	return &entry{name: "tree.Iblt.UnmarshalBinary-Subtract-Decode",
+	return &entry{name: "iblt.Unmarshal-Subtract-Decode",
 		gen: func(h *harness, e *entry, emit func(input)) {
 			rnd := h.r.Rand("gen/" + e.name)
 			emit(input{data: valid, valid: true, seed: "iblt-1024"})
@@ -361,7 +361,7 @@ func peEntries(h *harness) []*entry {
 		}
 		genJSON(pdSeeds, false, plainWrap)(h, e, emit)
 	}
-	parsed := &entry{name: "pe.ParsePresentationDefinition-Match-Build-ResolveConstraintsFields", gen: genPD,
+	parsed := &entry{name: "pe.Definition.Parse-Match", gen: genPD,
 		call: func(in input) error {
 			pd, err := pe.ParsePresentationDefinition(in.data)
 			if err != nil {
@@ -370,7 +370,7 @@ func peEntries(h *harness) []*entry {
 			return f.usePD(pd)
 		}}
 	// the wallet side of OpenID4VP / the s2s flow fetches the verifier's definition with a plain json.Unmarshal (auth/client/iam: PresentationDefinition)
-	remote := &entry{name: "pe.PresentationDefinition(json.Unmarshal)-Match-Build-ResolveConstraintsFields", gen: genPD,
+	remote := &entry{name: "pe.Definition.Unmarshal-Match", gen: genPD,
 		call: func(in input) error {
 			var pd pe.PresentationDefinition
 			if err := json.Unmarshal(in.data, &pd); err != nil {
@@ -389,7 +389,7 @@ func peEntries(h *harness) []*entry {
 		goodPDs = append(goodPDs, pd)
 	}
 	vcSeeds := seedsOf("ld-vc", walletLDVC, "ld-vc-2", walletLDVC2)
-	hostileVC := &entry{name: "pe.Match(hostile credential)", gen: genJSON(vcSeeds, false, plainWrap),
+	hostileVC := &entry{name: "pe.Match.hostileVC", gen: genJSON(vcSeeds, false, plainWrap),
 		call: func(in input) error {
 			c, err := vc.ParseVerifiableCredential(string(in.data))
 			if err != nil {
@@ -410,7 +410,7 @@ func peEntries(h *harness) []*entry {
 			return errors.Join(errs...)
 		}}
 	jwtVCSeeds := seedsOf("jwt-vc", jwtVCTree())
-	hostileJWTVC := &entry{name: "pe.Match(hostile JWT credential)", gen: genJSON(jwtVCSeeds, false, atk.jwsWrap),
+	hostileJWTVC := &entry{name: "pe.Match.hostileJWTVC", gen: genJSON(jwtVCSeeds, false, atk.jwsWrap),
 		call: func(in input) error {
 			c, err := vc.ParseVerifiableCredential(string(in.data))
 			if err != nil {
@@ -454,7 +454,7 @@ func peEntries(h *harness) []*entry {
 		"submission-flat", `{"id":"s1","definition_id":"pd-sub","descriptor_map":[{"id":"org","format":"ldp_vc","path":"$.verifiableCredential[0]"},{"id":"other","format":"ldp_vc","path":"$.verifiableCredential[1]"}]}`,
 		"submission-nested", `{"id":"s2","definition_id":"pd-single","descriptor_map":[{"id":"org","format":"ldp_vp","path":"$[0]","path_nested":{"id":"org","format":"ldp_vc","path":"$.verifiableCredential"}}]}`,
 	)
-	submission := &entry{name: "pe.ParsePresentationSubmission-Resolve-Validate", gen: genJSON(subSeeds, false, plainWrap),
+	submission := &entry{name: "pe.Submission.Parse-Validate", gen: genJSON(subSeeds, false, plainWrap),
 		call: func(in input) error {
 			s, err := pe.ParsePresentationSubmission(in.data)
 			if err != nil {
@@ -480,7 +480,7 @@ func peEntries(h *harness) []*entry {
 			return errors.Join(errs...)
 		}}
 	// the token endpoint unmarshals the submission with plain json.Unmarshal (no schema)
-	submissionRaw := &entry{name: "pe.PresentationSubmission(json.Unmarshal)-Resolve-Validate", gen: genJSON(subSeeds, false, plainWrap),
+	submissionRaw := &entry{name: "pe.Submission.Unmarshal-Validate", gen: genJSON(subSeeds, false, plainWrap),
 		call: func(in input) error {
 			var s pe.PresentationSubmission
 			if err := json.Unmarshal(in.data, &s); err != nil {
@@ -517,7 +517,7 @@ func peEntries(h *harness) []*entry {
 		return errors.Join(e1, e2)
 	}
 	envSeeds := seedsOf("envelope-ld-vp", vpLD, "envelope-array", `[`+vpLDSingle+`,`+mustJSON(string(vpJWT))+`]`)
-	envelope := &entry{name: "pe.ParseEnvelope-Validate", gen: genJSON(envSeeds, false, plainWrap),
+	envelope := &entry{name: "pe.Envelope.Parse-Validate", gen: genJSON(envSeeds, false, plainWrap),
 		call: func(in input) error {
 			env, err := pe.ParseEnvelope(in.data)
 			if err != nil {
@@ -527,7 +527,7 @@ func peEntries(h *harness) []*entry {
 		}}
 	envJWTSeeds := seedsOf("envelope-jwt-vp", vpJWTTree)
 	goodSubJWT, _ := pe.ParsePresentationSubmission([]byte(`{"id":"s4","definition_id":"pd-single","descriptor_map":[{"id":"org","format":"jwt_vc","path":"$.verifiableCredential[0]"}]}`))
-	envelopeJWT := &entry{name: "pe.Envelope.UnmarshalJSON(JWT VP)-Validate", gen: genJSON(envJWTSeeds, false, atk.jwsWrap),
+	envelopeJWT := &entry{name: "pe.Envelope.JWT-Validate", gen: genJSON(envJWTSeeds, false, atk.jwsWrap),
 		call: func(in input) error {
 			var env pe.Envelope
 			if err := json.Unmarshal([]byte(mustJSON(string(in.data))), &env); err != nil {
